@@ -163,7 +163,16 @@ def unit(item):
                 leaves = [leaves[i] for i in E.pick_indices(len(leaves), 400)]
                 p.add(leaf_subsampled=1)
             for h in leaves:
-                ref[(iid, h)] = solo_reference(env, td0, h)
+                try:
+                    ref[(iid, h)] = solo_reference(env, td0, h)
+                except Exception as e:  # noqa: BLE001
+                    # a sequence the batched frontier admitted step by step cannot even be executed alone
+                    p.violation(
+                        sig(PID, spec, f"crash:{type(e).__name__}", "solo_replay_of_frontier_path"),
+                        dict(kind="frontier", spec=spec.key, instance_id=iid, instance=inst, path=list(h), step="solo_crash"),
+                        f"{spec.key} {iid}: the sequence {list(h)}, admitted step by step inside a batch, crashes when the instance is run alone: {type(e).__name__}: {str(e)[:100]}",
+                    )
+                    continue
                 p.add(traces_validated_against_impl=1, transitions=len(h))
             # (i) batched frontier vs solo
             by_hist = {n.hist: n for n in tree.nodes}
@@ -280,13 +289,38 @@ def main(tier):
 def replay(rec):
     spec = ALL_SPECS[rec["spec"]]
     if rec["kind"] == "frontier":
-        return False, "frontier disagreements are replayed by re-running the check (they need the whole frontier batch)"
+        # the frontier batch of this one instance is rebuilt (its rows are all prefixes of the instance's own episodes)
+        inst = rec["instance"]
+        env = spec.env(inst)
+        td0 = spec.td(inst)
+        path = tuple(rec["path"])
+        try:
+            smasks, sdones, srew = solo_reference(env, td0, path)
+        except Exception as e:  # noqa: BLE001
+            return True, f"running {list(path)} alone raises {type(e).__name__}: {e}"
+        tree = E.explore(env, td0)
+        by_hist = {n.hist: n for n in tree.nodes}
+        for t in range(len(path) + 1):
+            nd = by_hist.get(path[:t])
+            if nd is None:
+                return True, f"the batched frontier does not reach {list(path[:t])}, the solo run does"
+            if nd.mask != smasks[t] or nd.done != sdones[t]:
+                return True, f"after {list(path[:t])}: solo mask/done {smasks[t]}/{sdones[t]} vs batched frontier {nd.mask}/{nd.done}"
+        if rec.get("step") == "reward" and path in tree.leaves and srew is not None:
+            rb = E.rewards_of_leaves(env, tree)[tree.leaves.index(path)]
+            return abs(rb - srew) > 1e-6 * (1 + abs(srew)), f"reward solo {srew} vs next to other rows {rb}"
+        return False, "solo run and batched frontier agree along the path"
     rows = rec["rows"]
     env = spec.env(rows[0]["instance"])
     r = 0 if rec.get("subject_first") else rec["row"]
     subj = rows[r]
     td0 = spec.td(subj["instance"])
-    smasks, sdones, srew = solo_reference(env, td0, tuple(subj["path"]))
+    try:
+        smasks, sdones, srew = solo_reference(env, td0, tuple(subj["path"]))
+    except Exception as e:  # noqa: BLE001
+        return True, f"running {subj['path']} alone raises {type(e).__name__}: {e}"
+    if not all(t < len(smasks) and smasks[t][a] for t, a in enumerate(subj["path"])):
+        return False, f"not reproduced: on this tree the mask does not admit {subj['path']} for the instance run alone (the record was produced by different code)"
     masks, done_at, acts_all, td, problems = run_rows(env, [spec.td(x["instance"]) for x in rows], [tuple(x["path"]) for x in rows])
     rew = get_reward(env, td, acts_all)[r]
     s_done_at = next((t for t, x in enumerate(sdones) if x), None)
